@@ -61,6 +61,15 @@ def run(ctx):
             elif x != rs[0]:
                 ctx.fail("a member name spelled with escapes is read as a different name than its raw spelling",
                          "from_str\t" + hexs(t), {"text": t[:300], "escaped": x[:200], "raw": rs[0][:200]})
+    # names that need an escape (quote, backslash, controls; a literal backslash followed by n / t / u0041 / ")
+    for names in vlib.escape_name_sets():
+        exp, texts = vlib.escape_name_texts(ctx.rng, names, variants=3)
+        rs = ctx.impl(["from_str\t" + hexs(t) for t in texts] + ["from_value_text\t" + hexs(t) for t in texts])
+        n_sp += len(texts)
+        for t, x, y in zip(texts, rs[:len(texts)], rs[len(texts):]):
+            if x != y:
+                ctx.fail("from_str(text) differs from From<&Value>(serde_json(text)) on a text whose member names need escapes",
+                         "from_str\t" + hexs(t), {"text": t[:300], "from_str": x[:200], "from_value": y[:200]})
     ctx.notes["escaped_name_renderings"] = n_sp
     # escaped member names (the former KF5, repaired by 86c1e00: a failure here is a violation again)
     kf = ['{"a\\nb":1}', '{"\\u0061":1}', '{"a\\"b":true}', '[{"x\\ty":1},{"x\\ty":1,"z":2}]']
